@@ -243,7 +243,7 @@ type Ret struct {
 // WFault is a planned fault of the underlying writer.
 type WFault struct {
 	At   int // index of the Write call (0-based)
-	Kind int // 1 short write with error, 2 error without bytes, 3 short write without error
+	Kind int // 1 short write with error, 2 error without bytes, 3 short write without error, 4 the At-th WriteHeader call panics whatever its code
 	Keep int // bytes accepted for a short write
 }
 
